@@ -18,6 +18,7 @@ import (
 	"context"
 	"encoding/hex"
 	"net"
+	"sync"
 
 	"github.com/honeytrap/honeytrap/event"
 	"github.com/honeytrap/honeytrap/pushers"
@@ -49,7 +50,38 @@ type tftpService struct {
 
 	limiter *Limiter
 
+	// buffers is shared by the handlers of all clients, mu guards it
+	mu      sync.Mutex
 	buffers map[string]*tftpFile
+}
+
+// putFile starts the transfer of the client with this address.
+func (s *tftpService) putFile(addr string, f *tftpFile) {
+	s.mu.Lock()
+	defer s.mu.Unlock()
+
+	s.buffers[addr] = f
+}
+
+// appendData adds a block to the transfer of the client with this address,
+// and ends the transfer with the last block. It returns false when the
+// client has no transfer.
+func (s *tftpService) appendData(addr string, data []byte, last bool) (*tftpFile, bool) {
+	s.mu.Lock()
+	defer s.mu.Unlock()
+
+	f, ok := s.buffers[addr]
+	if !ok {
+		return nil, false
+	}
+
+	f.content = append(f.content, data...)
+
+	if last {
+		delete(s.buffers, addr)
+	}
+
+	return f, true
 }
 
 func (s *tftpService) SetChannel(c pushers.Channel) {
@@ -148,7 +180,7 @@ func (s *tftpService) Handle(ctx context.Context, conn net.Conn) error {
 		}
 		conn.Write(message)
 		addr := conn.RemoteAddr().String()
-		s.buffers[addr] = &tftpFile{filename: filename, mode: mode}
+		s.putFile(addr, &tftpFile{filename: filename, mode: mode})
 	case DATA:
 		blkNum := make([]byte, 2)
 		if _, err := b.Read(blkNum); err != nil {
@@ -162,21 +194,19 @@ func (s *tftpService) Handle(ctx context.Context, conn net.Conn) error {
 			return err
 		}
 		addr := conn.RemoteAddr().String()
-		if _, ok := s.buffers[addr]; !ok {
+		file, ok := s.appendData(addr, buffer[:n], n != 512)
+		if !ok {
 			log.Error("DATA packet with no matching buffer!")
 			message := []byte{0x00, byte(ERROR), 0x00, 0x04, 0x00}
 			conn.Write(message)
 			return nil
 		}
-		s.buffers[addr].content = append(s.buffers[addr].content, buffer[:n]...)
 		message := []byte{
 			0x00, byte(ACK),
 			blkNum[0], blkNum[1],
 		}
 		conn.Write(message)
 		if n != 512 { // Termination
-			file := s.buffers[addr]
-			delete(s.buffers, addr)
 			s.ch.Send(event.New(
 				EventOptions,
 				event.Category("tftp"),
